@@ -219,6 +219,13 @@ def histories(draw, force=None):
         source = 'dict' if (slot == 0 and force in ('data', 'data-same-type')) else \
             draw(st.sampled_from(['inline', 'inline', 'dict']))
         specs.append(draw(file_specs(slot_profile(source))))
+    if force == 'dimension-unframed':
+        # a channel that is in no frame (allowed outside high-compatibility mode), described by the user alone
+        o = specs[0]['lfs'][0]['ops']
+        o.append({'t': 'channel', 'name': 'LONELY', 'attrs': {
+            draw(st.sampled_from(['dimension', 'element_limit'])): {'v': [2], 'r': draw(st.sampled_from(['kw', 'later']))}}})
+        if specs[0].get('order'):
+            specs[0]['order'].append([0, len(o) - 1])
     if force == 'value-shape':
         o = specs[0]['lfs'][0]['ops']
         o.append({'t': 'zone', 'name': 'ZS1', 'attrs': {}})
@@ -272,6 +279,11 @@ def histories(draw, force=None):
         steps.append({'do': 'write', 'slot': 0, 'w': {}})
         if force == 'reads':
             pass
+        elif force == 'dimension-unframed':
+            j = len(specs[0]['lfs'][0]['ops']) - 1
+            kw = next(iter(specs[0]['lfs'][0]['ops'][j]['attrs']))
+            steps.append({'do': 'mutate', 'slot': 0, 'm': {'kind': 'value', 'op': j, 'kw': kw, 'v': [3]}})
+            steps.append({'do': 'write', 'slot': 0, 'w': {}})
         elif force == 'window':
             from vf.spec.strategies import min_rows
             rows = min_rows(specs[0]['lfs'][0])
@@ -441,7 +453,7 @@ class C14(Property):
         from vf.core import stratified
         # free histories, plus one stratum per kind of change between two writes of one file
         return [('histories', histories(), (n // 2) // ctx.nshards)] + \
-            stratified('change', lambda k: histories(k), MUTATION_KINDS + ['window', 'reads'], n // 2, ctx)
+            stratified('change', lambda k: histories(k), MUTATION_KINDS + ['window', 'reads', 'dimension-unframed'], n // 2, ctx)
 
     def run(self, case, ctx):
         dw.check_import_location()
